@@ -105,6 +105,15 @@ fn run_scenario<T: Sc>(out: Option<&mut Out>, sc: &Scenario<T>, from: usize, to:
             ));
             let alpha: Vec<T> = f.problem.params().iter().copied().collect();
             out.line(&format!("fitend calls={}", f.calls_at_return));
+            // the accessors of the FitResult itself (views of the returned problem)
+            out.line(&format!(
+                "fr coef={} bestfit={}",
+                match &f.coef {
+                    Some(c) => c.iter().map(|v| format!(",{}", hex(v.f()))).collect::<String>(),
+                    None => "none".to_string(),
+                },
+                if f.best_fit.is_some() { "some" } else { "none" }
+            ));
             // the state handed back: values that are present must be the right ones for the reported
             // parameters (fault window closed for the inspection)
             probe.set_fault(usize::MAX, usize::MAX);
